@@ -148,6 +148,11 @@ func GenConfig(prop string, g *Gen, tier string) Config {
 		c.KeyD = []string{"int", "string", "uint64", "int64"}[g.Intn(4)]
 		c.ValD = []string{"int", "string"}[g.Intn(2)]
 	}
+	if g.Intn(12) == 0 && c.Marshaler == "json" && c.ValD != "nil" && c.ValD != "inf" {
+		// another custom marshaler, usable with every key and value type (compact format only)
+		c.Marshaler = "xjson"
+		c.Format = FmtBinary
+	}
 	if c.KeyD == "userkey" {
 		c.Layers = genLayers(g, c.U)
 	}
@@ -254,6 +259,9 @@ func GenConfig(prop string, g *Gen, tier string) Config {
 		if c.Format != FmtBinary {
 			c.Format = FmtMarshaler
 		}
+	}
+	if c.Marshaler == "xjson" && (c.ValD == "nil" || c.ValD == "inf" || c.NoLike) {
+		c.Marshaler = "json"
 	}
 	return c
 }
@@ -521,8 +529,8 @@ func (s *genState) emit(kind, prop string) {
 			v = cur // same-value insert (no-op)
 		}
 		iop := Op{K: "ins", T: ti, Key: k, Val: v}
-		if (prop == "C09") && t.hasRoot && g.Intn(10) == 0 {
-			iop.F, iop.N = "loadfault", 1+g.Intn(4)
+		if (prop == "C09" || prop == "C04") && t.hasRoot && g.Intn(10) == 0 {
+			iop.F, iop.N = "loadfault", 1+g.Intn(5)
 		}
 		s.ops = append(s.ops, iop)
 		t.model[k] = v
@@ -546,8 +554,8 @@ func (s *genState) emit(kind, prop string) {
 			v = cur + 1 + g.Intn(3) // wrong value
 		}
 		dop := Op{K: "del", T: ti, Key: k, Val: v}
-		if (prop == "C09") && t.hasRoot && g.Intn(8) == 0 {
-			dop.F, dop.N = "loadfault", 1+g.Intn(4)
+		if (prop == "C09" || prop == "C04") && t.hasRoot && g.Intn(8) == 0 {
+			dop.F, dop.N = "loadfault", 1+g.Intn(5)
 		}
 		s.ops = append(s.ops, dop)
 		if ok && v == cur {
